@@ -86,6 +86,11 @@ class Register:
                         f"Cannot slice parameter {alias_from.name} of non-register kind {alias_from.kind}."
                     )
             else:
+                for bound in (alias_slice.start, alias_slice.stop, alias_slice.step):
+                    if bound is not None and not isinstance(bound, int):
+                        raise JaqalError(
+                            f"Cannot slice register {alias_from.name} with {bound}: not an integer."
+                        )
                 if alias_slice.step is not None and alias_slice.step == 0:
                     raise JaqalError("Slice step cannot be zero.")
                 if alias_slice.start is not None and alias_slice.start < 0:
@@ -313,7 +318,9 @@ class NamedQubit:
                     f"Cannot slice parameter {alias_from.name} of non-register kind {alias_from.kind}."
                 )
         else:
-            if alias_index != int(alias_index):
+            if not isinstance(alias_index, (int, float)) or alias_index != int(
+                alias_index
+            ):
                 raise JaqalError(f"Qubit index {alias_index} is not an integer.")
             try:
                 from_size = int(alias_from.size)
